@@ -1323,6 +1323,27 @@ class Verifier(Exec):
         darr = self.ctx.name('app.arr', ite(fits, s.arr, na))
         doff = self.ctx.name('app.off', ite(fits, s.off, ZERO))
         res = SliceV(darr, doff, n, self.ctx.name('app.cap', ite(fits, s.cap, newcap)), e)
+        if t.len.is_int() and t.len.val == 1:
+            # single-element append without any heap havoc: the fresh array's never-observed contents are chosen to be
+            # the copy of the old elements (an assumption about fresh memory), then the new element is stored
+            if self.writable is not None or any(w is not None for w in self.loop_writes):
+                st2 = st.copy()
+                st2.pc = and_(st.pc, fits)
+                self.frame_check_obj(st2, self.elemaddr(s.arr, add(s.off, s.len)), e)
+            ev = SpecEval(self, st, {}, None, 'append')
+            nq = self.ctx.counter.get('q:ap', 0)
+            self.ctx.counter['q:ap'] = nq + 1
+            k = const('ap?%d' % nq, INT)
+            cp_new = self.obj_load(st, e, self.elemaddr(na, k))
+            cp_old = self.obj_load(st, e, self.elemaddr(s.arr, add(s.off, k)))
+            self.ctx.assume(forall([k], implies(and_(le(ZERO, k), lt(k, s.len)), ev.ident_eq(cp_new, cp_old)), [self.elemaddr(na, k)]))
+            val_ = self.obj_load(st, e, self.elemaddr(t.arr, t.off))
+            dst = self.ctx.name('app.dst', ite(fits, self.elemaddr(s.arr, add(s.off, s.len)), self.elemaddr(na, s.len)))
+            saved = self.writable, self.loop_writes
+            self.writable, self.loop_writes = None, []
+            self.obj_store(st, e, dst, val_)
+            self.writable, self.loop_writes = saved
+            return res
         # destination elements written: [doff + (fits ? s.len : 0), doff + n)
         lo = self.ctx.name('app.lo', add(doff, ite(fits, s.len, ZERO)))
         reg = ('objs', e, darr, lo, add(doff, n))
